@@ -59,14 +59,23 @@ def tie(tier, seed, replay):
     if ds_cases:
         m, stats = c10_ds.tie_ds(ds_cases)
         mism += m
+        stats["oracle_crosschecked_against_Closure_eqv"] = c10_ds.oracle_crosscheck(seed)
     checked, results = 0, []
+    infra = None
     if prog_cases:
         chunk = 64
-        for i in range(0, len(prog_cases), chunk):
-            results += c10_prog.run_cases(prog_cases[i:i + chunk], tag="c10")
+        try:
+            for i in range(0, len(prog_cases), chunk):
+                results += c10_prog.run_cases(prog_cases[i:i + chunk], tag="c10")
+        except lib.Infra as e:      # keep what the DS half found
+            infra = "PROG half: %s" % str(e)[:1500]
     feats, skipped, nontrivial = {}, 0, set()
     for r in results:
-        mm, n = c10_prog.compare(r)
+        try:
+            mm, n = c10_prog.compare(r)
+        except lib.Infra as e:
+            infra = infra or "PROG half: %s" % str(e)[:1500]
+            continue
         for m in mm:
             if "raw" in r["case"]:
                 m["case"]["raw"] = r["case"]["raw"]
@@ -106,6 +115,7 @@ def tie(tier, seed, replay):
         samples=samples,
         distribution=dict(ds=stats, prog=dict(programs=len(results), program_inputs_checked=checked, oracle_timeouts=skipped, features=feats)),
         mismatches=mism,
+        **({"infra": infra} if infra else {}),
         trusted_base=["harness/ds_eqrel (drives the provider types through the public ascent::internal traits exactly as ascent_codegen.rs does: merge of the common structure, then of every index write view; stratum boundary = field := total, delta := take(field)); its reconstruction of full tuples from (key, value) and the bit-mask encoding",
                       "gen/c10_ds.py (closure oracle, law evaluation, linearizability search for concurrent inserts), gen/c10_prog.py + gen/dl.py + gen/prog.py (program rendering, generated crates, canonicaliser)",
                       "hash-table iteration order is modelled as insertion order; every observation is compared as a set of full tuples plus a duplicate count",
